@@ -91,6 +91,25 @@ def r2_full_width(ctx):
     more_reads = [r for r in reads if r.bb in region]
     ctx.ob("R06.2", "authenticate_client:mismatch-rejects", not rets_ok_in_ne and not more_reads, "", "a mismatch returns an error without reading further" if not rets_ok_in_ne and not more_reads else
            "after a hash mismatch the function can still succeed / keep reading")
+    # ... and the equal edge leads to acceptance: once the 32 bytes matched, the only way to fail is a transport error while
+    # reading the rest of the preamble (a truncated preamble).  A further *judgement* after the match (on the declared padding
+    # length, on anything else the peer sent) turns holders of the password away
+    eq_region = cfg.reach([e[1] for e in eq_edges])
+    judged = []
+    for kind, bi, si, rv in body.defs().get(0, []):
+        if bi not in eq_region:
+            continue
+        if kind == "assign" and rv["r"] == "aggregate":
+            if rv["kind"].get("variant") == "Err":
+                judged.append((bi, "a constructed error"))
+        elif kind == "call":
+            t = body.blocks[bi]["term"]
+            src = o.of_operand(t["args"][0]) if t.get("args") else None
+            if not any(isinstance(s_, tuple) and s_ and s_[0] == "call" and ("AsyncReadExt::" in s_[1] or "AsyncRead" in s_[1]) for s_ in subterms(src)):
+                judged.append((bi, "an error that does not come from reading the transport (%s)" % fmt(src)[:60]))
+    ctx.ob("R06.2", "authenticate_client:match-accepts", not judged, "src/util/auth.rs:%s" % (body.blocks[judged[0][0]]["tspan"]["line"] if judged else body.blocks[eq_edges[0][0]]["tspan"]["line"] if eq_edges else "?"),
+           "after the hash matched, the only failures are errors of the remaining transport reads" if not judged else
+           "after the 32 bytes matched the function can still refuse the connection with %s: a holder of the password (e.g. one whose declared padding0 length the server does not like) gets no session" % judged[0][1])
 
 
 def r3_exact_skip(ctx):
